@@ -230,7 +230,9 @@ void BpEndecodeArray(struct BpArrayDescriptor *descriptor,
 
     // Skip redundant bits if decoding.
     if (descriptor->extensible && (!ctx->is_encode)) {
-        int ito = i + (((int)ahead) * descriptor->cap);
+        // The opponent's array occupies 16 bits of ahead flag plus `ahead`
+        // elements, each of the size just consumed per element.
+        int ito = i + 16 + ((int)ahead) * ((ctx->i - i - 16) / descriptor->cap);
         if (ito >= ctx->i) {
             ctx->i = ito;
         }
